@@ -115,6 +115,17 @@ func newOperator(expr parser.Expr, storage *engstore.SelectorPool, opts *query.O
 			return nil, err
 		}
 
+		if e.Func.Name == "timestamp" {
+			// Like in Prometheus, timestamp() of a vector selector returns the
+			// timestamps of the selected samples, not the evaluation time.
+			if next, ok, err := newTimestampSelector(e.Args[0], storage, opts, hints); ok {
+				if err != nil {
+					return nil, err
+				}
+				return function.NewFunctionOperator(e, function.TimestampOfSelector, []model.VectorOperator{next}, stepsBatch, opts)
+			}
+		}
+
 		if e.Func.Variadic != 0 {
 			return nil, errors.Wrapf(parse.ErrNotImplemented, "got variadic function: %s", e)
 		}
@@ -292,15 +303,59 @@ func unpackVectorSelector(t *parser.MatrixSelector) (*parser.VectorSelector, []*
 	}
 }
 
+// newTimestampSelector returns the operand of timestamp() if it is a plain vector selector.
+func newTimestampSelector(arg parser.Expr, storage *engstore.SelectorPool, opts *query.Options, hints storage.SelectHints) (model.VectorOperator, bool, error) {
+	for {
+		paren, ok := arg.(*parser.ParenExpr)
+		if !ok {
+			break
+		}
+		arg = paren.Expr
+	}
+	switch e := arg.(type) {
+	case *parser.StepInvariantExpr:
+		// A selector pinned with @: its sample is selected once and yields the same timestamp at every step.
+		next, ok, err := newTimestampSelector(e.Expr, storage, opts.WithEndTime(opts.Start), hints)
+		if !ok || err != nil {
+			return nil, ok, err
+		}
+		op, err := step_invariant.NewStepInvariantOperator(model.NewVectorPool(stepsBatch), next, e.Expr, opts, stepsBatch)
+		return op, true, err
+	case *parser.VectorSelector:
+		start, end := getTimeRangesForVectorSelector(e, opts, 0)
+		hints.Start = start
+		hints.End = end
+		selector := storage.GetSelector(start, end, opts.Step.Milliseconds(), e.LabelMatchers, hints)
+		op, err := newShardedSelector(selector, opts, e.Offset, true)
+		return op, true, err
+	case *logicalplan.FilteredSelector:
+		start, end := getTimeRangesForVectorSelector(e.VectorSelector, opts, 0)
+		hints.Start = start
+		hints.End = end
+		selector := storage.GetFilteredSelector(start, end, opts.Step.Milliseconds(), e.LabelMatchers, e.Filters, hints)
+		op, err := newShardedSelector(selector, opts, e.Offset, true)
+		return op, true, err
+	}
+	return nil, false, nil
+}
+
 func newShardedVectorSelector(selector engstore.SeriesSelector, opts *query.Options, offset time.Duration) (model.VectorOperator, error) {
+	return newShardedSelector(selector, opts, offset, false)
+}
+
+func newShardedSelector(selector engstore.SeriesSelector, opts *query.Options, offset time.Duration, timestamps bool) (model.VectorOperator, error) {
 	numShards := runtime.GOMAXPROCS(0) / 2
 	if numShards < 1 {
 		numShards = 1
 	}
+	newSelector := scan.NewVectorSelector
+	if timestamps {
+		newSelector = scan.NewTimestampSelector
+	}
 	operators := make([]model.VectorOperator, 0, numShards)
 	for i := 0; i < numShards; i++ {
 		operator := exchange.NewConcurrent(
-			scan.NewVectorSelector(
+			newSelector(
 				model.NewVectorPool(stepsBatch), selector, opts, offset, i, numShards), 2)
 		operator = verifWrap(operator, nil, opts)
 		operators = append(operators, operator)
